@@ -79,6 +79,12 @@ func (iop_@C@) NewPoly(entries []*big.Int, f IopForm) IopPoly {
 	c := ev_@C@(entries)
 	return &iopPoly_@C@{iop_@C@_pkg.NewPolynomial(&c, form_@C@(f))}
 }
+func (iop_@C@) NewPolySpare(entries []*big.Int, f IopForm, spare int) IopPoly {
+	buf := garbage_@C@(len(entries) + spare)
+	copy(buf, ev_@C@(entries))
+	c := buf[:len(entries)]
+	return &iopPoly_@C@{iop_@C@_pkg.NewPolynomial(&c, form_@C@(f))}
+}
 func (iop_@C@) ReadPoly(r io.Reader) (IopPoly, int64, error) {
 	p := new(iop_@C@_pkg.Polynomial)
 	n, err := p.ReadFrom(r)
